@@ -153,12 +153,14 @@ def run(ctx):
     WS_ATOMS = ['a', ' ', '\n', '\r', '\t', '%', '\\textbf', '{', '}', '~', '\\\\']
     plans.append(('default', WS_ATOMS, 4 if quick else 6))
     plans.append(('k', WS_ATOMS[:6] + ['\\m', '{', '}', '\\s', '*'], 4 if quick else 5))
+    pc.SOUP_VOLUME.update(num=150 if quick else 1500, nseeds=8 if quick else 16, seed=ctx.seed)
+    plans += [('k', pc.K_ATOMS, pc.SOUP + (9 if quick else 14)), ('default', pc.D_ATOMS, pc.SOUP + (9 if quick else 14))]
     for cname, atoms, K in plans:
         jobs = pc.export_jobs(atoms, cname, K, ['strict', 'tolerant'], ['StrictCover', 'TolerantCover', 'NoNonterm'],
                               payload=dict(sample_every=97 if quick else 997), timeout=6000)
-        m = common.run_shards(ctx, ('harness.c01', 'CoverConsumer'), jobs, what='ParseRun %s K=%d (Cover invariants)' % (cname, K))
+        m = common.run_shards(ctx, ('harness.c01', 'CoverConsumer'), jobs, what='ParseRun %s %s (Cover invariants)' % (cname, pc.kdesc(K)))
         ctx.add_merged(m)
-        ctx.log('%s K=%d: %d strings; %s' % (cname, K, m['n'], {k: v for k, v in m['counters'].items() if ':' in k}))
+        ctx.log('%s %s: %d strings; %s' % (cname, pc.kdesc(K), m['n'], {k: v for k, v in m['counters'].items() if ':' in k}))
         validate(ctx, m)
     # C->S on the repository's own tests: every top-level parse result the tests produce
     from . import c11
